@@ -384,79 +384,99 @@ func norm(v any) any {
 	return v
 }
 
-// Value evaluates an equation on one element. The result is nil, bool, int64,
-// float64, string, []any, map[string]any, Nothing, multi or DontCare.
+// Value evaluates an equation on one element with every multi-valued path
+// operand left as a multi value (used for display and for single-valued trees).
 func Value(e *Eq, elem, root any) any {
+	return valueWith(e, elem, root, nil)
+}
+
+// pathValues returns the values a path operand yields on the element.
+func pathValues(e *Eq, elem, root any) []any {
+	start := elem
+	if len(e.Path) > 0 && e.Path[0].Kind == "root" {
+		start = root
+	}
+	rs := Eval(e.Path, root, Res{Loc: []any{}, V: start})
+	out := make([]any, len(rs))
+	for i, r := range rs {
+		out[i] = norm(r.V)
+	}
+	return out
+}
+
+// valueWith evaluates e; pick gives, for multi-valued path operands, the single value chosen for this
+// combination (ojg evaluates the WHOLE script once per combination of values and matches if any is true).
+func valueWith(e *Eq, elem, root any, pick map[*Eq]any) any {
 	switch e.Op {
 	case "const":
-		if e.Kind == "nothing" {
+		switch e.Kind {
+		case "nothing":
 			return Nothing
+		case "regex":
+			if rx, err := regexp.Compile(fmt.Sprint(e.Const)); err == nil {
+				return rx
+			}
+			return DontCare
 		}
 		return norm(e.Const)
 	case "path":
-		start := elem
-		if len(e.Path) > 0 && e.Path[0].Kind == "root" {
-			start = root
+		if v, ok := pick[e]; ok {
+			return v
 		}
-		rs := Eval(e.Path, root, Res{Loc: []any{}, V: start})
-		switch len(rs) {
+		vs := pathValues(e, elem, root)
+		switch len(vs) {
 		case 0:
 			return Nothing
 		case 1:
-			return norm(rs[0].V)
+			return vs[0]
 		}
-		m := make(multi, len(rs))
-		for i, r := range rs {
-			m[i] = norm(r.V)
+		return multi(vs)
+	case "length":
+		// length(path): the length of the single value at the path; several values are not defined
+		vs := pathValues(e.L, elem, root)
+		if len(vs) != 1 {
+			if len(vs) == 0 {
+				return Nothing
+			}
+			return DontCare
 		}
-		return m
+		return apply("length", vs[0], nil)
+	case "count":
+		return DontCare
 	}
 	var l, r any
 	if e.L != nil {
-		l = Value(e.L, elem, root)
+		l = valueWith(e.L, elem, root, pick)
 	}
 	if e.R != nil {
-		r = Value(e.R, elem, root)
+		r = valueWith(e.R, elem, root, pick)
 	}
-	// multi-valued operands: true if any combination is true
-	if ml, ok := l.(multi); ok {
-		return anyCombo(e, ml, r, true)
+	if _, ok := l.(multi); ok {
+		return DontCare // only reached through Value() on a multi-valued tree (display)
 	}
-	if mr, ok := r.(multi); ok {
-		return anyCombo(e, mr, l, false)
+	if _, ok := r.(multi); ok {
+		return DontCare
 	}
 	return apply(e.Op, l, r)
 }
 
-func anyCombo(e *Eq, m multi, other any, left bool) any {
-	var last any = false
-	sawDC := false
-	for _, v := range m {
-		var res any
-		if left {
-			if mo, ok := other.(multi); ok {
-				res = anyCombo(&Eq{Op: e.Op}, mo, v, false)
-			} else {
-				res = apply(e.Op, v, other)
-			}
-		} else {
-			res = apply(e.Op, other, v)
-		}
-		if b, ok := res.(bool); ok && b {
-			return true
-		}
-		if res == DontCare {
-			sawDC = true
-		}
-		last = res
+// multiOperands collects the path operands of e that yield several values.
+func multiOperands(e *Eq, elem, root any, out *[]*Eq, vals *[][]any) {
+	if e == nil {
+		return
 	}
-	if sawDC {
-		return DontCare
+	switch e.Op {
+	case "path":
+		if vs := pathValues(e, elem, root); len(vs) > 1 {
+			*out = append(*out, e)
+			*vals = append(*vals, vs)
+		}
+		return
+	case "length", "count":
+		return
 	}
-	if _, ok := last.(bool); ok {
-		return false
-	}
-	return last
+	multiOperands(e.L, elem, root, out, vals)
+	multiOperands(e.R, elem, root, out, vals)
 }
 
 func isNum(v any) bool {
@@ -770,14 +790,41 @@ var Undefined int
 var Tolerated int
 
 func TruthDefined(e *Eq, elem, root any) (val bool, defined bool) {
-	v := Value(e, elem, root)
-	if v == DontCare {
+	var ops []*Eq
+	var vals [][]any
+	multiOperands(e, elem, root, &ops, &vals)
+	total := 1
+	for _, v := range vals {
+		total *= len(v)
+		if total > 4096 {
+			return false, false
+		}
+	}
+	sawDC := false
+	for mi := 0; mi < total; mi++ {
+		pick := map[*Eq]any{}
+		k := mi
+		for oi, o := range ops {
+			pick[o] = vals[oi][k%len(vals[oi])]
+			k /= len(vals[oi])
+		}
+		v := valueWith(e, elem, root, pick)
+		if v == DontCare {
+			sawDC = true
+			continue
+		}
+		if e.Op == "path" {
+			if v != Nothing {
+				return true, true
+			}
+			continue
+		}
+		if b, _ := v.(bool); b {
+			return true, true
+		}
+	}
+	if sawDC {
 		return false, false
 	}
-	if e.Op == "path" {
-		// a bare path means "exists"
-		return v != Nothing, true
-	}
-	b, _ := v.(bool)
-	return b, true
+	return false, true
 }
